@@ -9,6 +9,7 @@ import (
 	"sort"
 	"strings"
 	"sync"
+	"sync/atomic"
 	"testing"
 	"time"
 
@@ -190,6 +191,8 @@ func run(tb ev.TB, c groupCase) (labels []string, nontrivial bool) {
 		exited chan struct{}
 		ctxAt  time.Time
 		exitAt time.Time
+		// set by the function when it found its context ended on entry
+		startedAfterEnd atomic.Bool
 	}
 	var prevFns []*liveFn
 	var prevGen *kafka.Generation
@@ -208,6 +211,9 @@ func run(tb ev.TB, c groupCase) (labels []string, nontrivial bool) {
 		lf := &liveFn{spec: spec, exited: make(chan struct{})}
 		rec(event{kind: "fn-start", gen: gen.ID, fn: idx, info: spec.Kind})
 		gen.Start(func(ctx context.Context) {
+			// A function handed to Start after the generation has ended is run, but it is not part of the generation any more
+			// (documented in Generation.Start): it finds its context already ended, and Next does not wait for it.
+			lf.startedAfterEnd.Store(ctx.Err() != nil)
 			defer func() {
 				lf.exitAt = time.Now()
 				rec(event{kind: "fn-exit", gen: gen.ID, fn: idx})
@@ -235,6 +241,9 @@ func run(tb ev.TB, c groupCase) (labels []string, nontrivial bool) {
 	checkPrevEnded := func(when string) bool {
 		// (a) every function started in the previous generation has returned
 		for i, lf := range prevFns {
+			if lf.startedAfterEnd.Load() {
+				continue
+			}
 			select {
 			case <-lf.exited:
 			default:
@@ -266,6 +275,10 @@ func run(tb ev.TB, c groupCase) (labels []string, nontrivial bool) {
 			// (a) Next must not hand out a generation while a function of the previous one is still running
 			for i, lf := range prevFns {
 				<-lf.exited // the harness waited for them at the end of the previous round
+				if lf.startedAfterEnd.Load() {
+					lab["function_started_after_generation_end"] = true
+					continue
+				}
 				if lf.exitAt.After(nextAt) {
 					fail("c15/next-before-functions-returned", "Next returned generation %d at a time when function %d (%s) of generation %d was still running (it returned %v later)", gen.ID, i, lf.spec.Kind, prevGen.ID, lf.exitAt.Sub(nextAt))
 					return
